@@ -173,7 +173,7 @@ fn token_strategy(typeable: bool) -> impl Strategy<Value = String> {
     let table: Vec<char> = vec!['-', '-', '-', 'a', 'b', 'h', 'é', '₿', '𝄞', ' ', 'v'];
     let ch = prop_oneof![
         10 => any::<u16>().prop_map(move |s| pick(&table, s)),
-        1 => any::<char>().prop_filter("no NUL", move |c| *c != '\0' && (!typeable || (*c >= ' ' && *c != '\x7f'))),
+        1 => any::<char>().prop_map(move |c| if c == '\0' || (typeable && (c < ' ' || c == '\x7f')) { 'Ω' } else { c }),
     ];
     prop_oneof![
         1 => Just("--".to_string()),
